@@ -152,6 +152,17 @@ class Ref:
                     ret = x[-1]
                 elif op == "lsort" and len(t) == 2:
                     x.sort()
+                # the list itself as argument: as if it had been copied first
+                elif op == "lappendself" and len(t) == 2:
+                    x.extend(list(x))
+                elif op == "lprependself" and len(t) == 2:
+                    x[0:0] = list(x)
+                elif op == "linsertself" and len(t) == 3:
+                    pos = int(t[2])
+                    if pos > len(x): return "bad-op"
+                    x[pos:pos] = list(x); ret = pos
+                elif op == "lassignself" and len(t) == 2:
+                    pass
                 else:
                     return "bad-op"
             elif op[0] == "p":
@@ -225,6 +236,19 @@ class Ref:
                 elif op == "aget" and len(t) == 3:
                     if int(t[2]) >= len(x): return "bad-op"
                     ret = x[int(t[2])]
+                elif op == "aappendself" and len(t) == 2:
+                    x.extend(list(x)); need = len(x)
+                elif op == "aappendref" and len(t) == 3:
+                    if int(t[2]) >= len(x): return "bad-op"
+                    x.append(x[int(t[2])]); ret = len(x) - 1; need = len(x)
+                elif op == "aresizeref" and len(t) == 4:
+                    n, i = int(t[2]), int(t[3])
+                    if i >= len(x): return "bad-op"
+                    val = x[i]
+                    if n < len(x): del x[n:]
+                    else: x.extend([val] * (n - len(x))); need = n
+                elif op == "aassignself" and len(t) == 2:
+                    pass
                 elif op == "aeq" and len(t) == 3:
                     if not isnum(t[2]) or int(t[2]) > 1: return "bad-op"
                     ret = 1 if x == self.a[int(t[2])] else 0; shows = []
@@ -359,14 +383,16 @@ reference.uses_impl = True
 # ---- generators -----------------------------------------------------------------------------------
 L_OPS = ["lappend 0 0", "lappend 0 1", "lappend 0 2", "lprepend 0 1", "linsert 0 1 0", "linsert 0 1 2", "linsert 0 2 1",
          "lremove 0 0", "lremove 0 1", "lremovev 0 1", "lremoveFront 0", "lremoveBack 0", "lclear 0", "lswap 0",
-         "lappend 1 2", "lappendl 0", "lprependl 0", "linsertl 0 1", "lcopy 1", "lassign 0", "lsort 0", "lfind 0 1", "leq 0 1"]
+         "lappend 1 2", "lappendl 0", "lprependl 0", "linsertl 0 1", "lcopy 1", "lassign 0", "lsort 0", "lfind 0 1", "leq 0 1",
+         "lappendself 0", "lprependself 0", "linsertself 0 1", "lassignself 0"]
 P_OPS = ["pappend 0 0", "pappend 0 1", "pappend 0 2", "pappend 1 1", "premove 0 0", "premove 0 1", "premovev 0 0",
          "premovev 0 2", "premoveFront 0", "premoveBack 0", "pclear 0", "pswap 0", "pfront 0", "pback 0"]
 A_OPS = ["aappend 0 0", "aappend 0 1", "aappend 0 2", "aappendn 0 1,2", "aappendn 0 2,1,0,1", "aappendn 0 -", "aappenda 0",
          "aresize 0 0 1", "aresize 0 2 1", "aresize 0 5 1", "areserve 0 0", "areserve 0 1", "areserve 0 4", "areserve 0 5",
          "aremovei 0 0", "aremovei 0 1", "aremovei 0 7", "aremove 0 0", "aremoveBack 0", "aremoveFront 0", "aclear 0", "aswap 0",
          "acopy 1", "acopy 0", "aassign 0", "aassign 1", "anewcap 0 2", "anewcap 1 0", "anew 0", "afind 0 1", "aget 0 0",
-         "aappend 1 2", "aeq 0 1"]
+         "aappend 1 2", "aeq 0 1",
+         "aappendself 0", "aappendref 0 0", "aappendref 0 1", "aresizeref 0 5 0", "aresizeref 0 1 0", "aassignself 0"]
 
 
 def exhaustive(alpha, depth):
@@ -425,6 +451,28 @@ def tagged_histories(rng, maxlen, nrandom):
             else:
                 h.append("uclear"); n = 0
         hs.append(h)
+    return hs
+
+
+def alias_histories():
+    """the array itself / a reference into it as argument, at every size/capacity relation: initial capacities 0..16,
+    1..16 distinct elements, then append(a), append(a[i]), resize(n, a[i]); the same for lists (every insert position)"""
+    hs = []
+    for c in range(0, 17):
+        for m in range(1, 17):
+            fill = [f"anewcap 0 {c}", f"aappendn 0 {csv([100 + j for j in range(m)])}"]
+            tails = [["aappendself 0"], ["aappendself 0", "aappendself 0"], ["aassignself 0", "aappendself 0"]]
+            for i in sorted({0, m // 2, m - 1}):
+                tails.append([f"aappendref 0 {i}"])
+                for n in sorted({m, m + 1, (max(c, m) | 3), (max(c, m) | 3) + 1, m + 9}):
+                    tails.append([f"aresizeref 0 {n} {i}"])
+            for t in tails:
+                hs.append(fill + t + ["aappend 0 7", "dump"])
+    for m in range(0, 10):
+        fill = [f"lappend 0 {100 + j}" for j in range(m)]
+        for t in [["lappendself 0"], ["lprependself 0"], ["lassignself 0"]] + [[f"linsertself 0 {p}"] for p in range(m + 1)]:
+            hs.append(fill + t + ["lappend 0 7", "lremoveFront 0", "lsort 0", "dump"] if t != ["lassignself 0"] or m else fill + t + ["dump"])
+            hs.append(fill + t + t + ["dump"])
     return hs
 
 
@@ -489,7 +537,9 @@ def gen_random(rng, length, kinds, pool_front):
             elif k < 0.86: op = rng.choice([f"linsertl {v} {pos(n, True)}", f"lappendl {v}", f"lprependl {v}", f"lswap {v}",
                                             f"lcopy {v}", f"lassign {v}", f"lfind {v} {val()}", f"leq {v} {rng.randrange(2)}",
                                             f"lfront {v}", f"lback {v}", f"lfind {v} {rng.choice(r.l[v]) if r.l[v] else 0}"])
-            elif k < 0.97: op = f"lsort {v}"
+            elif k < 0.94: op = f"lsort {v}"
+            elif k < 0.97: op = (rng.choice([f"lappendself {v}", f"lprependself {v}", f"linsertself {v} {pos(n, True)}"]) if n <= 24
+                                 else f"lassignself {v}")
             else: op = f"lclear {v}"
         elif kind == "p":
             n = len(r.p[v])
@@ -517,6 +567,8 @@ def gen_random(rng, length, kinds, pool_front):
             elif k < 0.97: op = rng.choice([f"aswap {v}", f"acopy {v}", f"aassign {v}", f"anew {v}", f"anewcap {v} {rng.randrange(0, 41)}",
                                             f"afind {v} {val()}", f"afind {v} {rng.choice(r.a[v]) if r.a[v] else 0}",
                                             f"aget {v} {pos(n, False)}", f"afront {v}", f"aback {v}", f"aeq {v} {rng.randrange(2)}"])
+            elif k < 0.985: op = rng.choice([f"aappendref {v} {pos(n, False)}", f"aresizeref {v} {rng.choice([0, n, n + 1, n + 5, r.cap[v][0] + 1])} {pos(n, False)}",
+                                             f"aassignself {v}", f"aappendself {v}" if n <= 30 else f"aappendref {v} {pos(n, False)}"])
             else: op = f"aclear {v}"
         h.append(op)
         r.apply(op)
@@ -553,14 +605,15 @@ def histories_for(ctx, pool_front):
     if not pool_front:
         hs = [[l for l in h if not l.startswith(("pfront", "pback"))] for h in hs]
     ncorpus = len(hs)
-    dl, dp, da = (4, 4, 3) if quick else (5, 5, 4)
-    nl, np_, na = (60000, 30000, 100000) if quick else (0, 1000000, 2000000)
+    dl, dp, da = (3, 4, 3) if quick else (4, 5, 4)
+    nl, np_, na = (300000, 30000, 100000) if quick else (6000000, 1000000, 2000000)
     exl = exhaustive(L_OPS, dl) + (sampled(L_OPS, dl + 1, rng, nl) if nl else [])
     exp = exhaustive(p_ops, dp) + sampled(p_ops, dp + 1, rng, np_)
     exa = exhaustive(A_OPS, da) + sampled(A_OPS, da + 1, rng, na)
     srt = sort_histories(7 if quick else 8, 8 if quick else 9)
     tag = tagged_histories(rng, 7 if quick else 10, 300 if quick else 5000)
-    grw = growth_histories(rng, 0.05 if quick else 1.0)
+    ali = alias_histories()
+    grw = growth_histories(rng, 0.05 if quick else 1.0) + ali
     rnd = []
     for _ in range(2000 if quick else 40000):
         kinds = rng.choice(["l", "l", "p", "a", "a", "lpa"])
@@ -579,7 +632,8 @@ def histories_for(ctx, pool_front):
         f"sort: every permutation of length <= {7 if quick else 8} and every {{0,1,2}}-valued list of length <= {8 if quick else 9} ({len(srt)}) "
         f"+ {len(shapes)} long adversarial shapes; List<Tagged> (operator< on the key only, so the arrangement of equal keys exposes the exact "
         f"swap sequence): every key sequence over {{0,1,2}} of length <= {7 if quick else 10} + random lists to 100 elements ({len(tag)}); Array growth: initial capacities 0..40 x first growth to sizes 0..44 x second growth at the "
-        f"boundaries ({len(grw)} histories{', 5% sample' if quick else ''}); {len(rnd)} random histories of 10..300 ops "
+        f"boundaries ({len(grw) - len(ali)} histories{', 5% sample' if quick else ''}) + {len(ali)} self-argument histories (a.append(a), a.append(a[i]), "
+        f"a.resize(n, a[i]), a = a at capacities 0..16 x sizes 1..16 with distinct values; l.append(l), l.prepend(l), l.insert(pos, l), l = l); {len(rnd)} random histories of 10..300 ops "
         "(value domains {0..2}, -3..6, -50..50, int extremes; ~4% invalid positions).  distinct_nontrivial = distinct (op-kind set, final "
         "observation) among histories with >= 3 ops whose last shown container is non-empty")
     ctx.cov["exhaustive"] = False
@@ -784,7 +838,7 @@ def check(ctx):
         h2 = C.build_harness(ctx, "seq_o2", ["seq.cpp"], extra_flags=(["-DSEQ_POOL_FRONT"] if pf else []) + ["-O2"], sanitize=False)
         if h2 is not None:
             try:
-                sub = [h for h in hs if h and h[-1] == "dump"]
+                sub = [h for h in hs if h and h[-1] == "dump"]          # random + self-argument histories
                 sub += ctx.rng.sample(hs, min(len(hs), 20000 if ctx.tier == "quick" else 300000))
                 d2 = differential_mp(ctx, h2, C.driver_path(DRIVER), sub)
                 ctx.log(f"-O2 stream: {len(sub)} histories, {len(d2)} disagreement(s)")
